@@ -1,3 +1,4 @@
+import Percival.Proofs.NetbufStep
 import Percival.Proofs.NetbufRead
 import Percival.Proofs.NetbufWrite
 /-!
@@ -307,5 +308,50 @@ example :
      | .ok (w, _) => NetbufWrite.request w
      | _ => none) = some [7] :=
   ⟨Proofs.NetbufWrite.hyps_of_eval (by decide +kernel) (by decide +kernel), by decide +kernel⟩
+
+/-! ## The functions the executables run
+
+`pmodel netbuf` applies `Model.NetbufStep.stepOp` to every parsed line and `pmodel netbufmon` applies
+`Spec.NetbufMon.monStep` to every (operation, implementation's answer) pair; `Driver/Netbuf.lean` and
+`Driver/Netbufmon.lean` contain only the parsers and printers.  `stepOp` is the line protocol *around* the two
+models: the scripted kernel, the `network_read` / `network_write` loops (`spinR`, `spinW`: total, the reader's
+with fuel `loopN + rqWeight rq + 2`, an exhausted fuel being the explicit outcome `model-fuel`), and the harness'
+callback program. -/
+
+open Percival.Model.NetbufStep Percival.Proofs.NetbufStep in
+/-- **The executable moves the reader and the writer only by steps of their models**: in every state that
+`pmodel netbuf` reaches, for every sequence of protocol lines, the reader is the result of
+`NetbufRead.run NetbufRead.init` on some sequence of reader operations/events and the writer the result of
+`NetbufWrite.run NetbufWrite.init` — the runs that `reader_refines` … `writer_requests_nonempty` are about. -/
+theorem exec_states_are_model_runs (ops : List Spec.NetbufMon.Op) :
+    (∃ rops outs, NetbufRead.run NetbufRead.init rops = .ok ((runOps {} ops).1.r, outs)) ∧
+    (∃ wops outs, NetbufWrite.run NetbufWrite.init wops = .ok ((runOps {} ops).1.w, outs)) :=
+  runOps_hist ops {} hist_init
+
+open Percival.Model.NetbufStep Percival.Spec.NetbufMon in
+example : ((runOps {} [.netDeliver [1, 2, 3], .rWait 2, .spin, .rConsume 1, .rPeek]).2.map Out.ans) =
+    [.ok, .ok, .spin [.succ 3 (.hex [1, 2])] 0 0 .none 0, .ok, .peek 2 (.hex [2, 3])] := by decide +kernel
+
+open Percival.Model.NetbufStep Percival.Proofs.NetbufStep in
+/-- a model failure (out of bounds, assertion, contract, fuel) is latched: every later line repeats it, so it
+cannot be overlooked in the comparison -/
+theorem exec_failure_latched (s : NetbufStep.St) (b : Fail) (hb : s.bad = some b) (op : Spec.NetbufMon.Op) :
+    stepOp s op = (s, .failed b) :=
+  stepOp_latched s b hb op
+
+open Percival.Model.NetbufStep in
+example : (stepOp { bad := some .oob } .spin).1.bad = some .oob := rfl
+
+/- Monitor soundness — "for every sequence of protocol lines, `monStep` accepts the answers of `stepOp`" — is
+   NOT proved: it needs the abstraction relation of `reader_refines` / `writer_refines` carried through the two
+   event loops `spinR` / `spinW` together with the monitor's stream bookkeeping (`items`, `known`, `pending`).
+   It is exercised on every run instead: the model's own lines are fed to the monitor (vlib runs both on the same
+   cases) and the concrete instance below is decided by the kernel. -/
+open Percival.Model.NetbufStep Percival.Spec.NetbufMon in
+example :
+    let ops : List Op := [.netDeliver [1, 2, 3], .rWait 2, .spin, .rConsume 1, .wWrite [7, 8], .netAccept 1, .netAccept 5, .spin]
+    let outs := (runOps {} ops).2.map Out.ans
+    (ops.zip outs).foldl (fun (acc : Spec.NetbufMon.St × Bool) p =>
+      let r := monStep acc.1 p.1 p.2; (r.1, acc.2 && r.2.isNone)) ({}, true) |>.2 = true := by decide +kernel
 
 end Percival.C07
